@@ -115,10 +115,13 @@ func backoffMain(args []string) error {
 
 	switch *mode {
 	case "grid":
-		for _, mi := range mins {
-			for _, ma := range maxs {
-				for _, a := range atts {
-					for _, j := range jits {
+		for im, mi := range mins {
+			for ix, ma := range maxs {
+				for ia, a := range atts {
+					for ij, j := range jits {
+						if *tier == "quick" && (ia+im+ix)%2 != ij {
+							continue // quick tier: jitter on for one half of the grid points, off for the other
+						}
 						c, err := runBackoff(mi, ma, j, a, int64(r.U64()>>1))
 						if err != nil {
 							return err
